@@ -33,6 +33,7 @@ func poolInv(p *VarPool) bool {
 func contract_VarPool_GetName(p *VarPool, baseName string) (result string) {
 	vs.Requires(poolInv(p))
 	vs.Ensures("fresh", !vs.Old(issued(p, result)))
+	vs.Ensures("nonempty", vs.Implies(baseName != "", result != ""))
 	vs.Ensures("recorded", issued(p, result) && issued(p, baseName))
 	vs.Ensures("monotone", vs.ForallString(func(s string) bool { return vs.Implies(vs.Old(issued(p, s)), issued(p, s)) }))
 	vs.Ensures("exact", vs.ForallString(func(s string) bool {
@@ -55,6 +56,7 @@ func inv_GetName_search(p *VarPool, baseName string, count int) {
 //kvc:contract (*VarPool).GetChannel
 func contract_VarPool_GetChannel(p *VarPool, t types.Type) (result string) {
 	vs.Requires(poolInv(p))
+	vs.Ensures("nonempty", result != "")
 	vs.Ensures("fresh", !vs.Old(issued(p, result)))
 	vs.Ensures("recorded", issued(p, result))
 	vs.Ensures("monotone", vs.ForallString(func(s string) bool { return vs.Implies(vs.Old(issued(p, s)), issued(p, s)) }))
@@ -157,6 +159,7 @@ func contract_InjectorParam_ChannelName(ip *InjectorParam, varPool *VarPool) (re
 	vs.Ensures("memo_hit", vs.Implies(vs.Old(ip.channelName) != "", result == vs.Old(ip.channelName) && ip.channelName == vs.Old(ip.channelName) &&
 		vs.ForallString(func(s string) bool { return varPool.vars[s] == vs.Old(varPool.vars[s]) })))
 	vs.Ensures("unreferenced_blank", vs.Implies(vs.Old(ip.channelName) == "" && ip.refCounter == 0, result == "_" && ip.channelName == ""))
+	vs.Ensures("referenced_is_memoised", vs.Implies(ip.refCounter != 0, result == ip.channelName && result != ""))
 	vs.Ensures("fresh_when_allocated", vs.Implies(vs.Old(ip.channelName) == "" && ip.refCounter != 0, !vs.Old(issued(varPool, result)) && issued(varPool, result) && ip.channelName == result))
 	vs.Ensures("monotone", vs.ForallString(func(s string) bool { return vs.Implies(vs.Old(issued(varPool, s)), issued(varPool, s)) }))
 	vs.Ensures("inv", poolInv(varPool))
@@ -471,4 +474,112 @@ func contract_channelsClose(stmt *InjectorProviderCallStmt, channels []ast.Expr)
 	vs.Ensures("closes_all_channels", isCloseAll(result, channels))
 	vs.Allocates()
 	return
+}
+
+//kvc:inline (*InjectorParam).Type
+
+// ---------------------------------------------------------------------------
+// Which channels a provider call waits on / closes (C01, C03)
+// ---------------------------------------------------------------------------
+
+// gChans: the channel expressions collected by the statement builder in progress (ghost).
+var gChans []ast.Expr
+
+//kvc:ghost (*InjectorProviderCallStmt).generateChannelWaitStatement before "return stmt.channelsWait(channels"
+func ghostWaitChans(channels []ast.Expr) { gChans = channels }
+
+//kvc:ghost (*InjectorProviderCallStmt).generateChannelCloseStatement before "return stmt.channelsClose(channels)"
+func ghostCloseChans(channels []ast.Expr) { gChans = channels }
+
+func callStmtWellFormed(stmt *InjectorProviderCallStmt) bool {
+	return stmt != nil &&
+		vs.Forall(len(stmt.Arguments), func(k int) bool {
+			return stmt.Arguments[k] != nil && stmt.Arguments[k].Param != nil && len(stmt.Arguments[k].Param.types) >= 1 && stmt.Arguments[k].Param.refCounter > 0
+		}) &&
+		vs.Forall(len(stmt.Returns), func(k int) bool { return stmt.Returns[k] != nil && len(stmt.Returns[k].types) >= 1 })
+}
+
+// waitedArg: argument k is produced on another thread, so the call must wait for its completion signal.
+func waitedArg(stmt *InjectorProviderCallStmt, k int) bool {
+	return stmt.Arguments[k].IsWait && stmt.Arguments[k].Param.withChannel
+}
+
+// namesChannelOf: expression e is the identifier of p's completion channel.
+func namesChannelOf(e ast.Expr, p *InjectorParam) bool {
+	return p.channelName != "" && isIdentNamed(e, p.channelName)
+}
+
+// everyWaitedArgIn: each of the first n arguments that must be waited for has its channel in chans.
+func everyWaitedArgIn(stmt *InjectorProviderCallStmt, n int, chans []ast.Expr) bool {
+	return vs.Forall(n, func(k int) bool {
+		return vs.Implies(waitedArg(stmt, k), vs.Exists(len(chans), func(j int) bool { return namesChannelOf(chans[j], stmt.Arguments[k].Param) }))
+	})
+}
+
+// onlyWaitedArgsIn: every channel in chans belongs to one of the first n arguments that must be waited for.
+func onlyWaitedArgsIn(stmt *InjectorProviderCallStmt, n int, chans []ast.Expr) bool {
+	return vs.Forall(len(chans), func(j int) bool {
+		return vs.Exists(n, func(k int) bool { return waitedArg(stmt, k) && namesChannelOf(chans[j], stmt.Arguments[k].Param) })
+	})
+}
+
+//kvc:contract (*InjectorProviderCallStmt).generateChannelWaitStatement
+func contract_generateChannelWaitStatement(stmt *InjectorProviderCallStmt, varPool *VarPool, injector *Injector, returnErrStmts func(ast.Expr) []ast.Stmt) (result ast.Stmt) {
+	vs.Requires(callStmtWellFormed(stmt) && poolInv(varPool) && injectorArgsNonNil(injector))
+	vs.Ensures("no_wait_iff_nothing_to_wait_for", (result == nil) == vs.Forall(len(stmt.Arguments), func(k int) bool { return !waitedArg(stmt, k) }))
+	// C01: before the provider is called, the completion signal of every input produced on another thread is awaited
+	vs.Ensures("waits_for_every_cross_thread_input", vs.Implies(result != nil,
+		isWaitAll(result, gChans, injectorHasCtx(injector) && returnErrStmts != nil) && everyWaitedArgIn(stmt, len(stmt.Arguments), gChans)))
+	// C03: and it waits for nothing else
+	vs.Ensures("waits_only_for_inputs", vs.Implies(result != nil, onlyWaitedArgsIn(stmt, len(stmt.Arguments), gChans)))
+	vs.Ensures("pool_inv", poolInv(varPool))
+	vs.Modifies(vs.FieldOfAll(stmt.Arguments[0].Param.channelName), varPool.vars, gChans)
+	vs.Allocates()
+	return
+}
+
+//kvc:loop (*InjectorProviderCallStmt).generateChannelWaitStatement "for _, arg := range stmt.Arguments"
+func inv_generateChannelWaitStatement(stmt *InjectorProviderCallStmt, varPool *VarPool, channels []ast.Expr, kvcIdx int) {
+	vs.Invariant("pool_inv", poolInv(varPool))
+	vs.Invariant("every_waited_so_far", everyWaitedArgIn(stmt, kvcIdx, channels))
+	vs.Invariant("only_waited_so_far", onlyWaitedArgsIn(stmt, kvcIdx, channels))
+	vs.Invariant("empty_iff_none", (len(channels) == 0) == vs.Forall(kvcIdx, func(k int) bool { return !waitedArg(stmt, k) }))
+}
+
+func everyChannelledReturnIn(stmt *InjectorProviderCallStmt, n int, chans []ast.Expr) bool {
+	return vs.Forall(n, func(k int) bool {
+		return vs.Implies(stmt.Returns[k].withChannel, vs.Exists(len(chans), func(j int) bool { return namesChannelOf(chans[j], stmt.Returns[k]) }))
+	})
+}
+
+func onlyChannelledReturnsIn(stmt *InjectorProviderCallStmt, n int, chans []ast.Expr) bool {
+	return vs.Forall(len(chans), func(j int) bool {
+		return vs.Exists(n, func(k int) bool { return stmt.Returns[k].withChannel && namesChannelOf(chans[j], stmt.Returns[k]) })
+	})
+}
+
+func returnsReferenced(stmt *InjectorProviderCallStmt) bool {
+	return vs.Forall(len(stmt.Returns), func(k int) bool { return vs.Implies(stmt.Returns[k].withChannel, stmt.Returns[k].refCounter > 0) })
+}
+
+//kvc:contract (*InjectorProviderCallStmt).generateChannelCloseStatement
+func contract_generateChannelCloseStatement(stmt *InjectorProviderCallStmt, varPool *VarPool) (result ast.Stmt) {
+	vs.Requires(callStmtWellFormed(stmt) && returnsReferenced(stmt) && poolInv(varPool))
+	vs.Ensures("no_close_iff_no_channel", (result == nil) == vs.Forall(len(stmt.Returns), func(k int) bool { return !stmt.Returns[k].withChannel }))
+	// C03: the completion signal of every value that some other thread waits for is sent ...
+	vs.Ensures("closes_every_channelled_result", vs.Implies(result != nil, isCloseAll(result, gChans) && everyChannelledReturnIn(stmt, len(stmt.Returns), gChans)))
+	// ... and nothing else is closed
+	vs.Ensures("closes_only_own_results", vs.Implies(result != nil, onlyChannelledReturnsIn(stmt, len(stmt.Returns), gChans)))
+	vs.Ensures("pool_inv", poolInv(varPool))
+	vs.Modifies(vs.FieldOfAll(stmt.Returns[0].channelName), varPool.vars, gChans)
+	vs.Allocates()
+	return
+}
+
+//kvc:loop (*InjectorProviderCallStmt).generateChannelCloseStatement "for _, param := range stmt.Returns"
+func inv_generateChannelCloseStatement(stmt *InjectorProviderCallStmt, varPool *VarPool, channels []ast.Expr, kvcIdx int) {
+	vs.Invariant("pool_inv", poolInv(varPool))
+	vs.Invariant("every_channelled_so_far", everyChannelledReturnIn(stmt, kvcIdx, channels))
+	vs.Invariant("only_channelled_so_far", onlyChannelledReturnsIn(stmt, kvcIdx, channels))
+	vs.Invariant("empty_iff_none", (len(channels) == 0) == vs.Forall(kvcIdx, func(k int) bool { return !stmt.Returns[k].withChannel }))
 }
